@@ -151,6 +151,9 @@ DatesOnly == {W("normal", <<>>, <<DRange(B0(Dt(-1, 4, 1)), B0(Ea(-1)))>>, <<>>, 
               W("normal", <<>>, <<MoR(1, 1, -1)>>, <<>>, <<>>, <<>>, "", ""),
               W("normal", <<Y(2020, 2022, 1, FALSE)>>, <<>>, <<>>, <<>>, <<>>, "", ""),
               W("normal", <<>>, <<>>, <<Wk(1, 10, 1)>>, <<>>, <<>>, "", ""),
+              W("normal", <<>>, <<>>, <<>>, <<WdP(5, 5)>>, <<>>, "", ""),
+              W("normal", <<>>, <<>>, <<>>, <<PH(0)>>, <<>>, "", ""),
+              W("normal", <<>>, <<MoR(6, 6, -1)>>, <<>>, <<WdP(0, 4)>>, <<Sp(Fx(0), Fx(1440))>>, "", ""),
               \* the same with the whole day written out: the printer drops `00:00-24:00`, the parser must still see two rules
               W("normal", <<>>, <<DRange(B0(Dt(-1, 4, 1)), B0(Ea(-1)))>>, <<>>, <<>>, <<Sp(Fx(0), Fx(1440))>>, "", ""),
               W("normal", <<>>, <<MoR(1, 1, -1)>>, <<>>, <<>>, <<Sp(Fx(0), Fx(1440))>>, "", ""),
@@ -160,7 +163,11 @@ StartsWithDate == {W("additional", <<>>, <<DSingle(B0(Ea(-1)))>>, <<>>, <<>>, T1
                    W("additional", <<>>, <<DSingle(B0(Ea(2025)))>>, <<>>, <<>>, <<>>, "unknown", ""),
                    W("additional", <<>>, <<MoR(6, 8, -1)>>, <<>>, <<>>, T1, "", ""),
                    W("additional", <<Y(2030, 2030, 1, FALSE)>>, <<>>, <<>>, <<>>, <<>>, "", ""),
-                   W("additional", <<>>, <<>>, <<Wk(20, 20, 1)>>, <<>>, <<>>, "", "")}
+                   W("additional", <<>>, <<>>, <<Wk(20, 20, 1)>>, <<>>, <<>>, "", ""),
+                   W("additional", <<>>, <<>>, <<>>, <<WdP(6, 6)>>, T1, "", ""),
+                   W("additional", <<>>, <<>>, <<>>, <<WdR(2, 2, "1", <<TRUE, FALSE, FALSE, FALSE, FALSE>>, NoneT, 0)>>, T1, "unknown", ""),
+                   W("additional", <<>>, <<>>, <<>>, <<PH(0)>>, <<>>, "closed", ""),
+                   W("additional", <<>>, <<>>, <<>>, <<>>, T1, "", "")}
 AfterDates == {<<a, b>> : a \in DatesOnly, b \in StartsWithDate}
 
 \* written day and denoted day differ: a day-number end bound wrapping past the last supported year ends with that year
